@@ -807,6 +807,13 @@ func (vfs *OrefaFS) Rename(oldname, newname string) error {
 		return &os.LinkError{Op: op, Old: oldname, New: newname, Err: vfs.err.InvalidArgument}
 	}
 
+	if nChildOk {
+		// The file replaced by the renamed file loses a link.
+		nChild.mu.Lock()
+		nChild.remove()
+		nChild.mu.Unlock()
+	}
+
 	nParent.mu.Lock()
 	defer nParent.mu.Unlock()
 
